@@ -228,7 +228,8 @@ def fwdStart (env : Env) (cal : Cal) (used : Int → Rat) (t : Uid) (maxPred : T
       | [] => pure (setF σ t (fun g => { g with start := some epoch }))
       | c :: rest => pure (setF σ t (fun g => { g with start := some (rest.foldl minT c) }))
 
-/-- forward: `if _task.end is None` (schedule.py:292-303); the only place where the forward pass reserves -/
+/-- forward: `if _task.end is None` (schedule.py:292-303); the only place where the forward pass reserves.
+    Repaired (KF-S6): the second clock reading clamps the end only when it is later than the project start -/
 def fwdEnd (env : Env) (cal : Cal) (used : Int → Rat) (t : Uid) (σ : SS) : Res SS :=
   let info := env.info t
   match (σ.f t).end_ with
@@ -240,7 +241,7 @@ def fwdEnd (env : Env) (cal : Cal) (used : Int → Rat) (t : Uid) (σ : SS) : Re
       let (e, rows) ← shiftFwd cal used (maxT st nw) (leftOf σ t)
       let σ := addRows σ info.resource t rows
       let (nw2, σ) := now env σ
-      pure (setF σ t (fun g => { g with end_ := some (maxT (maxT e nw2) st) }))
+      pure (setF σ t (fun g => { g with end_ := some (maxT (if env.bound < nw2 then maxT e nw2 else e) st) }))
     else
       let ce := info.children.filterMap (fun c => (σ.f c).end_)
       match ce with
